@@ -96,3 +96,14 @@ pub use crate::policy::compressor::forwarding::verif_hooks as compressor_hooks;
 pub use crate::policy::compressor::forwarding::ForwardingMetadata;
 // C38 (family "policy"): stand-alone MemBalancerTrigger / FixedHeapSizeTrigger drivers.
 pub use crate::util::heap::gc_trigger::verif_hooks as gc_trigger_hooks;
+// C33 / C35 / C32 (family "arith"): alignment arithmetic, mark-sweep size classes, descriptors.
+pub use crate::policy::marksweepspace::native_ms::mi_bin;
+pub use crate::policy::marksweepspace::native_ms::verif_block_free_list;
+pub use crate::policy::marksweepspace::native_ms::verif_sizeclass::{
+    verif_mi_bin_from_size, verif_ms_consts, verif_size_class_table,
+};
+pub use crate::util::alloc::allocator::{
+    align_allocation, align_allocation_inner, align_allocation_no_fill, get_maximum_aligned_size,
+    get_maximum_aligned_size_inner,
+};
+pub use crate::util::heap::space_descriptor::SpaceDescriptor;
